@@ -22,7 +22,10 @@ def _drive(acc, n, pairs):
     out = os.path.join(core.BUILD, "C17_drive.report.json")
     scope = os.path.join(core.BUILD, "C17_scope.ndjson")
     core.run_vh(["drive-usecheck", "--n", str(n), "--pairs", str(pairs), "--trace", trace, "--cases", cases, "--out", out, "--scope-trace", scope], timeout=6000)
-    acc.violations += core.scope_validate(acc, scope, "C17", closed_only_unbound=False)
+    try:
+        acc.violations += core.scope_validate(acc, scope, "C17", closed_only_unbound=False)
+    except core.ToolError as e:
+        acc.deferred_tool_error = e
     rep = core.load_json(out)
     res = core.trace_validate(acc, "Trace_UseCheck", "Trace_UseCheck.cfg", trace, "Trace_UseCheck", timeout=3000)
     cs = [json.loads(l) for l in open(cases)]
